@@ -40,7 +40,8 @@ def explore(res, rng, n, exhaustive=None):
     # the number of digits is read from globalConfig at call time: change it and compare each table with its own cycle list
     cyc.config_stream(res, cyc.NAMES, [c for c in cases if c[1] < 0][: max(20, n // 12)])
     runs = cyc.correspondence(res, cyc.NAMES, cases, pred)
-    cyc.micro_stream(res, cyc.NAMES, rng, max(30, n // 25))
+    cyc.micro_stream(res, cyc.NAMES, rng, max(30, n // 25), pred)
+    cyc.caller_array_stream(res, cyc.NAMES, rng, max(10, n // 100))
     for name, h, s, out in runs:
         res.stat('counter_' + name)
         if 'error' in out:
